@@ -310,6 +310,7 @@ extern int mpt_data_convert_uint16(const uint16_t *from, MPT_TYPE(type) type, vo
 				struct iovec *vec = dest;
 				vec->iov_base = (void *) from;
 				vec->iov_len  = sizeof(*from);
+				return sizeof(*vec);
 			}
 			return MPT_ERROR(MissingData);
 		default:
